@@ -13,6 +13,9 @@ Import ListNotations.
 Open Scope string_scope.
 Open Scope R_scope.
 
+(* the only assumption on libm used anywhere: C `log` is the natural logarithm (LOG_10 = log(10.0)) *)
+Definition libm_ok (fun1 : string -> R -> R) : Prop := forall x, fun1 "ln" x = ln x.
+
 Section Model.
   Variable fun1 : string -> R -> R.
   Variable fun2 : string -> R -> R -> R.
